@@ -6,6 +6,7 @@ mod c08;
 mod c09;
 mod c10;
 mod c11;
+mod c13;
 mod c15;
 mod dump;
 mod exec;
@@ -71,6 +72,7 @@ fn main() {
         "c09" => c09::run(&a),
         "c10" => c10::run(&a),
         "c11" => c11::run(&a),
+        "c13" => c13::run(&a),
         "c15" => c15::run(&a),
         "exec" => exec::run(&a),
         "battery" => battery::run(&a),
